@@ -62,10 +62,10 @@ var c11Families = []string{gen.FTiny, gen.FNum, gen.FNum, gen.FMixed, gen.FWide,
 
 func c11Pred(c *rt.Ctx, st *gen.Store, r *rt.Rand) *gen.Node {
 	g := &gen.PredGen{R: r, KeyLits: st.KeyLiterals(r), IntVals: st.ValuesInt(), FltVals: st.ValuesFloat(), Avoid: c.Avoid, FloatEq: true}
-	if r.Chance(1, 6) {
+	if r.Chance(1, 4) {
 		// nested prefixes, touching ranges, a prefix with a one-sided range inside it, key lists
 		// around a range, the empty-literal bounds: the constructs the scan-range algebra has cases for
-		g.ForceKind = []int{12, 13, 13, 14, 15, 15, 16, 19}[r.Intn(8)]
+		g.ForceKind = []int{12, 13, 13, 14, 14, 14, 15, 15, 16, 19}[r.Intn(10)]
 		c.Rec.Inc("key_region_constructs_first")
 	}
 	vals := map[string]bool{}
